@@ -172,6 +172,11 @@ func VH05a_cooked() {
 				r.got = true
 				s.cur = r
 				verif.Reach("request-received")
+				if verif.Choice("free-request", 2) == 1 {
+					// the application is done with the request before it replies (as Socket.Recv does):
+					// its buffers go back to the pool and are reused by later traffic
+					s.rmsg.Free()
+				}
 			}
 		}
 	}
